@@ -60,6 +60,9 @@ def setup(rep, tier):
     rep.minimum('R18.3', 30)
     rep.minimum('R18.5', 1)
     rep.minimum('R18.6', 1)
+    rep.minimum('R18.7', 2)
+    rep.minimum('R18.8', 1)
+    rep.minimum('R18.9', 2)
 
 
 def within(v, lo, hi):
@@ -765,7 +768,117 @@ def r18_6(rep, prog):
     return n
 
 
+# ------------------------------------------------------------------ R18.7 / R18.8 / R18.9
+def r18_7(rep, prog):
+    """bandwidth expansion chirps EVERY coefficient: the siblings silk_bwexpander / silk_bwexpander_32 scale
+    ar[0 .. d-2] in a loop and ar[d-1] in a tail statement; each must store both index forms (the loop index
+    and the last element), otherwise the highest-order coefficient is never expanded and the stabilising loop of
+    NLSF2A cannot pull a pole on the unit circle back inside."""
+    n = 0
+    for fname in ('silk_bwexpander', 'silk_bwexpander_32'):
+        if not prog.has_fn(fname):
+            continue
+        f = prog.fn(fname)
+        rep.functions.add(fname)
+        pa = f.param_index('ar')
+        pd = f.param_index('d')
+        forms = set()
+        for x in f.all_nodes():
+            if x[0] == 'assign' and sx.kind(sx.strip_paren(x[1])) == 'idx' and sx.key(sx.strip(sx.strip_paren(x[1])[1])) == ('param', pa):
+                ix = sx.strip(sx.strip_paren(x[1])[2])
+                if sx.kind(ix) == 'local':
+                    forms.add('loop')
+                elif sx.kind(ix) == 'bin' and ix[1] == '-' and sx.key(sx.strip(ix[2])) == ('param', pd) and sx.int_val(ix[3]) == 1:
+                    forms.add('last')
+                else:
+                    forms.add(sx.show(ix))
+        n += 1
+        inst = '%s:%s scales every coefficient, the last one included' % (prog.config, fname)
+        if {'loop', 'last'} <= forms:
+            rep.holds('R18.7', inst, f.where(), 'stores at the loop index and at d-1')
+        else:
+            rep.violated('R18.7', inst, f.where(), 'stores only at %s: ar[d-1] is never bandwidth-expanded' % sorted(forms), key=fname + ':tail')
+    return n
+
+
+def r18_8(rep, prog):
+    """the sort-and-clamp fallback of the stabiliser keeps its 16-bit cells inside the 16-bit range: in every store
+    NLSF[i] = max(NLSF[i], X) the candidate X is bounded by the int16 range before narrowing (a saturating add).  A plain
+    sum of two 16-bit values wraps when the lower neighbours were clamped at 32767."""
+    f = prog.fn('silk_NLSF_stabilize')
+    rep.functions.add(f.name)
+    an = _an(prog, f)
+    cf = an.cf
+    n = 0
+    for b, i, x in cf.find(lambda x: x[0] == 'assign' and sx.kind(sx.strip_paren(x[1])) == 'idx' and sx.key(sx.strip(sx.strip_paren(x[1])[1])) == ('param', 0)):
+        rhs = sx.strip_paren(x[2])
+        while sx.kind(rhs) == 'cast':
+            rhs = sx.strip_paren(rhs[4])
+        if not (sx.kind(rhs) == 'call' and sx.callee_name(rhs) in ('silk_max_int', 'silk_max_16', 'silk_max_32')):
+            mm = None
+            if sx.kind(rhs) == 'cond':
+                c = sx.strip(rhs[1])
+                mm = sx.kind(c) == 'bin' and c[1] in ('>', '>=')
+            if not mm:
+                continue
+        st = an.state_before_node(b, i, x)
+        if st is None:
+            continue
+        args = rhs[2] if sx.kind(rhs) == 'call' else [rhs[2], rhs[3]]
+        for a in args:
+            if any(sx.kind(y) == 'bin' and y[1] == '+' for y in sx.walk(a)):
+                n += 1
+                a0 = sx.strip_paren(a)
+                while sx.kind(a0) == 'cast':
+                    a0 = sx.strip_paren(a0[4])
+                v = an.ev(a0, st)
+                inst = '%s:silk_NLSF_stabilize keeps the fallback\'s forward pass inside the 16-bit range' % prog.config
+                where = '%s:%s' % (f.file, sx.line(x))
+                if v is not None and absint.lo(v) >= -32768 and absint.hi(v) <= 32767:
+                    rep.holds('R18.8', inst, where, 'candidate in %s' % absint.show(v))
+                else:
+                    rep.violated('R18.8', inst, where, 'the candidate `%s` can be %s before it is stored into a 16-bit cell: it wraps negative when the lower neighbours sit at 32767, and the output is unordered' % (
+                        sx.show(a0)[:60], absint.show(v) if v is not None else 'unbounded'), key='stabilize-forward-wrap')
+    return n
+
+
+def r18_9(rep, prog):
+    """encoder and decoder keep the running gain index inside the table after a double-step update: in both quantiser and
+    dequantiser every `*prev_ind += (x << 1) - threshold` is followed, before the index is turned into a gain, by an
+    upper clamp of *prev_ind.  Without it the encoder carries 64 where the decoder carries 63."""
+    n = 0
+    for fname in ('silk_gains_quant', 'silk_gains_dequant'):
+        if not prog.has_fn(fname):
+            continue
+        f = prog.fn(fname)
+        rep.functions.add(fname)
+        cf = cfgm.CFG(f)
+        pp = f.param_index('prev_ind')
+        def is_prev(e):
+            e = sx.strip_paren(e)
+            return sx.kind(e) == 'deref' and sx.key(sx.strip(e[1])) == ('param', pp)
+        dbl = [(b, i, x) for b, i, x in cf.find(lambda x: x[0] == 'cassign' and x[1].startswith('+') and is_prev(x[2]) and any(sx.kind(y) == 'bin' and y[1] == '<<' for y in sx.walk(x[3])))]
+        clamps = set()
+        for b, i, x in cf.find(lambda x: x[0] == 'assign' and is_prev(x[1])):
+            if any(sx.kind(y) == 'cond' for y in sx.walk(x[2])) or (sx.kind(sx.strip(x[2])) == 'call' and 'min' in (sx.callee_name(sx.strip(x[2])) or '')):
+                clamps.add(b)
+        uses = {b for b, i, x in cf.find(lambda x: x[0] == 'call' and sx.callee_name(x) == 'silk_log2lin')}
+        for b, i, x in dbl:
+            n += 1
+            inst = '%s:%s clamps the running gain index after a double-step update' % (prog.config, fname)
+            where = '%s:%s' % (f.file, sx.line(x))
+            ok = bool(clamps) and bool(uses) and (b in clamps or cf.must_pass_live(b, uses, clamps))
+            if ok:
+                rep.holds('R18.9', inst, where, 'an upper clamp lies between the update and the gain look-up')
+            else:
+                rep.violated('R18.9', inst, where, 'no clamp of *prev_ind lies on every path from `%s` to the gain look-up: the index can leave the table (64) on this side only' % sx.show(x)[:60], key=fname + ':double-step-clamp')
+    return n
+
+
 def check(rep, prog, tier):
+    r18_7(rep, prog)
+    r18_8(rep, prog)
+    r18_9(rep, prog)
     r18_6(rep, prog)
     from . import stalehoist
     n5 = stalehoist.check(rep, 'R18.5', prog, lambda f: f.file.startswith('silk/') and '/x86/' not in f.file and any(t in f.file for t in ('gain_quant', 'decode_', 'NLSF_', 'dec_API', 'stereo_decode', 'NLSF2A', 'LPC_fit', 'bwexpander')), 'SILK dequantisers')
